@@ -86,6 +86,11 @@ def run(rep):
     # model, over which that is proved, to the CURRENT lexer.go)
     import lexcommon
     lexcommon.lexer_premise(rep, broken, ())
+    # C07_fragment_* are stated over Select/SelectParseModel.v + SelectPrintModel.v: tie them to the CURRENT parser and printer
+    import searchcommon
+    b2, summ = searchcommon.run_selectcore(rep, 1500 if rep.tier == "quick" else 20000)
+    broken += b2
+    rep.coverage["selectcore_correspondence"] = summ
     verif.report_broken(rep, broken, found)
     rep.assumptions = ["contexts embed at depth >= 1; identifiers without line breaks"]
 
